@@ -4,6 +4,7 @@ import (
 	"fmt"
 	"math"
 	"reflect"
+	"sync"
 
 	"github.com/simpleiot/simpleiot/data"
 
@@ -45,7 +46,7 @@ func c11Point(r *vlib.R, types []string) data.Point {
 
 func runC11(tier string, _ []string) int {
 	c := vlib.NewCtx("C11", tier, "exploration")
-	c.SetRule("types and prior values as in C10 (reflect.StructOf + static type); point lists of 0..12 points over declared and undeclared types with keys from a hostile pool ('', 0, -1, +3, 007, 1000, 1001, 1e3, abc, huge, unicode digits…), values (NaN, ±Inf, ±MaxFloat64, 2^63, 2^64, type-range edges), tombstones (0,1,2,3,-1,Max,Min) fed to data.Decode (points, edge points and children), data.MergePoints and data.MergeEdgePoints under a panic monitor, followed in a third of the cases by up to three more merges into the same target (keys around 500 and 1000 included) and, in 4% of the cases, starting from slices of 400-1000 elements; lists made only of undeclared types must leave the target unchanged and return no error. distinct = (entry point, outcome, shapes of the fields hit, key class)")
+	c.SetRule("types and prior values as in C10 (reflect.StructOf + static type); point lists of 0..12 points over declared and undeclared types with keys from a hostile pool ('', 0, -1, +3, 007, 1000, 1001, 1e3, abc, huge, unicode digits…), values (NaN, ±Inf, ±MaxFloat64, 2^63, 2^64, type-range edges), tombstones (0,1,2,3,-1,Max,Min) fed to data.Decode (points, edge points and children), data.MergePoints and data.MergeEdgePoints under a panic monitor, followed in a third of the cases by up to three more merges into the same target (keys around 500 and 1000 included) and, in 4% of the cases, starting from slices of 400-1000 elements; lists made only of undeclared types must leave the target unchanged and return no error. Then lists of 1001-5000 points of one type (deletions of other indexes, repeated deletions, live and deleted mixed); then types no one has used before decoded into by eight goroutines at once, each of which must get what a caller on its own gets. distinct = (entry point, outcome, shapes of the fields hit, key class)")
 	c.Assume("only supported (exported, tagged) field kinds are generated; a Go panic is the crash signal")
 	n := c.N(50000, 3000000)
 	static := c10StaticGen()
@@ -229,6 +230,117 @@ func runC11(tier string, _ []string) int {
 				c.Sample(wit)
 			}
 		}()
+	}
+	// ---- long lists: thousands of points of one type in one call (tombstoned for the most part, keys inside and
+	// outside the limits): no panic, whatever the outcome
+	nLong := c.N(60, 600)
+	for i := 0; i < nLong && !vlib.Aborted(); i++ {
+		r := vlib.NewR(c.Seed, "c11long", i)
+		g := genConfigType(r, false, 0)
+		var decl []string
+		for _, f := range g.Fields {
+			if f.Tag == "point" && (f.Shape == "slice" || f.Shape == "array" || f.Shape == "map" || i%4 == 0) {
+				decl = append(decl, f.PType)
+			}
+		}
+		if len(decl) == 0 {
+			continue
+		}
+		typ := decl[r.Intn(len(decl))]
+		n := []int{1001, 1002, 1003, 1500, 2500, 5000}[r.Intn(6)]
+		pts := make(data.Points, n)
+		style := r.Intn(4)
+		for j := range pts {
+			p := c11Point(r, []string{typ})
+			switch style {
+			case 0: // every one a deletion of another index
+				p.Key, p.Tombstone = fmt.Sprint(j), 1
+			case 1: // deletions of a few indexes, again and again
+				p.Key, p.Tombstone = fmt.Sprint(j%7), []int{1, 3}[r.Intn(2)]
+			case 2: // live and deleted mixed, keys up to the limit
+				p.Key, p.Tombstone = fmt.Sprint(r.Intn(1001)), []int{0, 1}[r.Intn(2)]
+			}
+			pts[j] = p
+		}
+		id := "n-" + r.Ident(3)
+		target := genConfigValue(r, g, 6, id)
+		entry := r.Intn(2)
+		c.Eval(1)
+		func() {
+			defer func() {
+				if e := recover(); e != nil {
+					c.Violate("decode-panic:"+[]string{"Decode", "MergePoints"}[entry], fmt.Sprintf("%s panicked on a list of %d points of one type: %v", []string{"Decode", "MergePoints"}[entry], n, e),
+						map[string]any{"case": i, "seed": c.Seed, "stage": "long lists", "type": g.describe(), "point_type": typ, "points": n, "style": style, "first_points": witnessPoints(pts[:5])})
+				}
+			}()
+			if entry == 0 {
+				_ = data.Decode(data.NodeEdgeChildren{NodeEdge: data.NodeEdge{ID: id, Parent: "p", Points: pts}}, target)
+			} else {
+				_ = data.MergePoints(id, pts, target)
+			}
+			c.Count("long_lists_survived", 1)
+		}()
+	}
+	// ---- the other caller: a type that no one has decoded into before is decoded into by eight goroutines at
+	// once (same input, own destinations); every one of them gets what a caller on its own gets afterwards
+	nConc := c.N(150, 1500)
+	for i := 0; i < nConc && !vlib.Aborted(); i++ {
+		r := vlib.NewR(c.Seed, "c11conc", i)
+		g := genConfigType(r, false, 0)
+		// (a field whose name is unique to this trial makes the type a new one for the reflect package and for
+		// anything keyed by type)
+		fs := []reflect.StructField{}
+		for j := 0; j < g.T.NumField(); j++ {
+			fs = append(fs, g.T.Field(j))
+		}
+		fs = append(fs, reflect.StructField{Name: fmt.Sprintf("Uniq%dS%d", i, c.Seed&0xffff), Type: reflect.TypeOf(0), Tag: reflect.StructTag(fmt.Sprintf(`point:"uniq%d"`, i))})
+		T := reflect.StructOf(fs)
+		id := "n-" + r.Ident(3)
+		a := genConfigValue(r, g, 6, id)
+		ne, err := data.Encode(a)
+		if err != nil {
+			continue
+		}
+		ne.Points = append(ne.Points, data.Point{Type: fmt.Sprintf("uniq%d", i), Value: 7})
+		in := data.NodeEdgeChildren{NodeEdge: ne}
+		const callers = 8
+		outs := make([]reflect.Value, callers)
+		errs := make([]error, callers)
+		panics := make([]any, callers)
+		var wg sync.WaitGroup
+		start := make(chan struct{})
+		for k := 0; k < callers; k++ {
+			outs[k] = reflect.New(T).Elem()
+			wg.Add(1)
+			go func(k int) {
+				defer wg.Done()
+				defer func() { panics[k] = recover() }()
+				<-start
+				errs[k] = data.Decode(in, outs[k])
+			}(k)
+		}
+		close(start)
+		wg.Wait()
+		ref := reflect.New(T).Elem()
+		refErr := data.Decode(in, ref)
+		c.Eval(1)
+		for k := 0; k < callers; k++ {
+			wit := map[string]any{"case": i, "seed": c.Seed, "stage": "concurrent first use of a type", "type": g.describe(), "caller": k}
+			if panics[k] != nil {
+				c.Violate("decode-panic:Decode", fmt.Sprintf("Decode panicked when %d goroutines decoded into a new type at once: %v", callers, panics[k]), wit)
+				break
+			}
+			if (errs[k] == nil) != (refErr == nil) {
+				c.Violate("decode:result-depends-on-other-callers", fmt.Sprintf("caller %d of %d concurrent first users of a type got error %v, a caller on its own gets %v", k, callers, errs[k], refErr), wit)
+				break
+			}
+			if d := eqVal(ref, outs[k], ""); d != "" {
+				wit["alone"], wit["concurrent"] = showVal(ref), showVal(outs[k])
+				c.Violate("decode:result-depends-on-other-callers", fmt.Sprintf("caller %d of %d concurrent first users of a type decoded something else than a caller on its own (same input) at %s", k, callers, d), wit)
+				break
+			}
+		}
+		c.Count("types_first_used_by_eight_callers_at_once", 1)
 	}
 	c.Require("returned_error", 10)
 	c.Require("returned_ok", 10)
